@@ -7,7 +7,7 @@ use crate::formats::sqpack::{encode_entry, BlockSpec, DatBuilder, EntryKind, Mod
 use crate::formats::Mode;
 use crate::harness::{Cfg, Harness, RunResult, Tier};
 use crate::rng::{fnv1a, Rng, FNV_INIT};
-use crate::simfs::{Benign, Call, Done};
+use crate::simfs::{Benign, Call, Done, Hostile, IoFault};
 use physis::gamedata::GameData;
 use physis::sqpack::SqPackData;
 use serde::{Deserialize, Serialize};
@@ -16,6 +16,10 @@ use serde::{Deserialize, Serialize};
 pub struct E2 {
     pub gap: u32,
     pub kind: EntryKind,
+    /// the first deflated block of this entry is stored with an invalid stream (an entry that
+    /// cannot be extracted sits next to healthy ones; only the healthy ones are checked)
+    #[serde(default)]
+    pub poison: bool,
 }
 
 #[derive(Clone, Copy, Debug, PartialEq, Eq, Serialize, Deserialize)]
@@ -35,7 +39,7 @@ pub struct C02Doc {
     pub leak_check: bool,
 }
 
-pub const PROBES: [&str; 17] = [
+pub const PROBES: [&str; 20] = [
     "multi_block_entry",
     "deflate_stored_stream",
     "deflate_fixed_stream",
@@ -53,6 +57,9 @@ pub const PROBES: [&str; 17] = [
     "entry_after_gap",
     "standard_entry",
     "repeat_read_same_handle",
+    "healthy_read_after_failed_read_of_poisoned_entry",
+    "hostile_read_completion_fired",
+    "read_under_fault_returned_none",
 ];
 
 const SIZES: [usize; 20] = [
@@ -172,7 +179,7 @@ pub fn generate(seed: u64, tier: Tier) -> Doc {
     let mut big_ok = r.chance(1, 10);
     let mut entries = vec![];
     for _ in 0..n {
-        entries.push(E2 { gap: if r.chance(1, 3) { r.below(20) as u32 } else { 0 }, kind: gen_entry(&mut r, tier, &mut big_ok) });
+        entries.push(E2 { gap: if r.chance(1, 3) { r.below(20) as u32 } else { 0 }, kind: gen_entry(&mut r, tier, &mut big_ok), poison: r.chance(1, 12) });
     }
     let mut reads: Vec<usize> = (0..n).collect();
     r.shuffle(&mut reads);
@@ -180,12 +187,26 @@ pub fn generate(seed: u64, tier: Tier) -> Doc {
         reads.push(r.usize_below(n));
     }
     let via = if r.chance(1, 3) { Via2::GameData } else { Via2::Direct };
+    // flagged extension: a hostile completion while an entry is being reassembled; the result
+    // may then be None, never wrong bytes
+    let mut io_faults = vec![];
+    let mut cfg = cfg;
+    if r.chance(1, 6) {
+        let op = r.usize_below(reads.len());
+        let (call, kind) = match r.below(4) {
+            0 => (Call::Seek, Hostile::Eio),
+            1 => (Call::Read, Hostile::EarlyEof),
+            _ => (Call::Read, Hostile::Eio),
+        };
+        io_faults.push(IoFault { op, call, nth: r.log_size(1500) as u32, kind, sticky: r.chance(1, 6), path_contains: None });
+        cfg = Cfg::Hostile;
+    }
     Doc {
         prop: "C02".into(),
         seed,
         cfg,
         benign,
-        io_faults: vec![],
+        io_faults,
         body: Body::C02(C02Doc {
             via,
             platform: if r.chance(2, 3) { 0 } else { r.below(5) as u8 },
@@ -202,14 +223,16 @@ pub fn directed() -> Vec<Doc> {
     let entries = vec![
         E2 {
             gap: 0,
+            poison: false,
             kind: EntryKind::Standard {
                 blocks: vec![b(16000, Mode::Miniz(6)), b(1, Mode::Raw), b(777, Mode::Fixed), b(15999, Mode::Stored), b(16000, Mode::Raw), b(300, Mode::Miniz(1))],
                 fill: 5,
             },
         },
-        E2 { gap: 3, kind: EntryKind::Standard { blocks: vec![], fill: 1 } },
+        E2 { gap: 3, poison: false, kind: EntryKind::Standard { blocks: vec![], fill: 1 } },
         E2 {
             gap: 0,
+            poison: false,
             kind: EntryKind::Texture {
                 header_len: 80,
                 mips: vec![vec![b(16000, Mode::Miniz(9)), b(384, Mode::Raw)], vec![b(4096, Mode::Miniz(6))], vec![b(1024, Mode::Fixed)], vec![b(256, Mode::Stored)]],
@@ -218,6 +241,7 @@ pub fn directed() -> Vec<Doc> {
         },
         E2 {
             gap: 1,
+            poison: false,
             kind: EntryKind::Model(ModelSpec {
                 version: 0x0100_0005,
                 vertex_declarations: 2,
@@ -232,6 +256,7 @@ pub fn directed() -> Vec<Doc> {
                 fill: 13,
             }),
         },
+        E2 { gap: 0, poison: true, kind: EntryKind::Standard { blocks: vec![b(500, Mode::Miniz(6)), b(100, Mode::Raw)], fill: 21 } },
     ];
     let noisy = Benign { short_read: 120, eintr_read: 50, short_write: 0, eintr_write: 0, one_byte_reads: false, one_byte_writes: false, permute_dirs: true };
     let mut out = vec![];
@@ -250,7 +275,7 @@ pub fn directed() -> Vec<Doc> {
             cfg,
             benign,
             io_faults: vec![],
-            body: Body::C02(C02Doc { via, platform: 0, dat_id: dat, entries: entries.clone(), reads: vec![0, 1, 2, 3, 0], leak_check: true }),
+            body: Body::C02(C02Doc { via, platform: 0, dat_id: dat, entries: entries.clone(), reads: vec![0, 4, 1, 2, 4, 3, 0], leak_check: true }),
         });
     }
     out
@@ -381,6 +406,7 @@ pub fn run(doc: &Doc, body: &C02Doc, trace: bool) -> RunResult {
         sections: Vec<Vec<u8>>,
         header: Option<ModelSpec>,
         path: String,
+        poisoned: bool,
     }
     let mut exps: Vec<Exp> = vec![];
     let dat_path = "/w/d/test.dat".to_string();
@@ -390,9 +416,20 @@ pub fn run(doc: &Doc, body: &C02Doc, trace: bool) -> RunResult {
             let mut db = DatBuilder::new(body.platform);
             for (i, e) in body.entries.iter().enumerate() {
                 let off = db.next_offset() + e.gap as u64 * 128;
-                let (enc, x) = encode_entry(&e.kind, &mut info);
+                let (mut enc, x) = encode_entry(&e.kind, &mut info);
+                let mut poisoned = false;
+                if e.poison {
+                    if let Some(f) = enc.fields.iter().find(|f| f.name.ends_with("blk.payload")).cloned() {
+                        // block type 3 is reserved: inflate reports a data error
+                        for k in 0..f.width.min(8) {
+                            enc.bytes[f.off + k] = 0xFF;
+                        }
+                        poisoned = true;
+                    }
+                }
                 db.place(off, &enc, &format!("e{}.", i));
                 exps.push(Exp {
+                    poisoned,
                     offset: off,
                     kind: x.kind,
                     body: x.body,
@@ -443,7 +480,7 @@ pub fn run(doc: &Doc, body: &C02Doc, trace: bool) -> RunResult {
             for i in 0..body.entries.len() {
                 let p = format!("chara/c02/file{}.bin", i);
                 let s: &Stored = lookup(&inst, &p).expect("HARNESS: stored entry not in the table");
-                exps.push(Exp { offset: s.offset, kind: s.expect_kind, body: s.body.clone(), sections: s.sections.clone(), header: s.header.clone(), path: p });
+                exps.push(Exp { poisoned: false, offset: s.offset, kind: s.expect_kind, body: s.body.clone(), sections: s.sections.clone(), header: s.header.clone(), path: p });
             }
             Some(inst)
         }
@@ -520,6 +557,7 @@ pub fn run(doc: &Doc, body: &C02Doc, trace: bool) -> RunResult {
         }
     }
     let mut seen: Vec<usize> = vec![];
+    let mut had_failed = false;
     for (k, &ei) in body.reads.iter().enumerate() {
         if h.failed() || ei >= exps.len() {
             break;
@@ -529,6 +567,7 @@ pub fn run(doc: &Doc, body: &C02Doc, trace: bool) -> RunResult {
         }
         seen.push(ei);
         let x = &exps[ei];
+        let hostile_before = h.fs.stats(|s| s.hostile_fired.iter().sum::<u64>());
         let entry = if body.via == Via2::Direct { "SqPackData::read_from_offset" } else { "GameData::extract" };
         let got = h
             .op(k as u32, entry, total_bytes, || match body.via {
@@ -538,12 +577,33 @@ pub fn run(doc: &Doc, body: &C02Doc, trace: bool) -> RunResult {
             .done();
         let Some(got) = got else { break };
         h.log(&format!("read {} -> {:?}", ei, got.as_ref().map(|v| (v.len(), fnv1a(FNV_INIT, v)))));
+        let fired_now = h.fs.stats(|s| s.hostile_fired.iter().sum::<u64>()) > hostile_before;
+        if fired_now {
+            h.probe(18);
+        }
+        if x.poisoned {
+            // what a damaged entry yields is C18's business; it only must not disturb the others
+            if got.is_none() {
+                had_failed = true;
+            }
+            continue;
+        }
+        if had_failed {
+            h.probe(17);
+        }
+        if fired_now && got.is_none() {
+            // an I/O error may fail the extraction; it may never produce wrong bytes
+            h.probe(19);
+            had_failed = true;
+            continue;
+        }
         if let Some((class, msg)) = check_extraction(x.kind, &x.body, &x.sections, x.header.as_ref(), &got) {
+            let class = if fired_now { format!("under-fault|{}", class) } else { class };
             h.violate(&format!("extract|{}", class), format!("entry {} at offset {}: {}", ei, x.offset, msg));
             break;
         }
         drop(got);
-        if body.leak_check && k == 0 {
+        if body.leak_check && k == 0 && !fired_now {
             h.probe(13);
             let off = x.offset;
             let path = x.path.clone();
@@ -641,6 +701,11 @@ pub fn shrink(b: &C02Doc) -> Vec<C02Doc> {
         alts
     };
     for (ei, e) in b.entries.iter().enumerate() {
+        if e.poison {
+            let mut n = b.clone();
+            n.entries[ei].poison = false;
+            out.push(n);
+        }
         if e.gap > 0 {
             let mut n = b.clone();
             n.entries[ei].gap = 0;
